@@ -3,6 +3,9 @@ from __future__ import annotations
 
 import json
 
+import numpy as np
+
+from props import c09 as cx          # the extended trace runner of the round-4 sweep lives in props/c09.py
 from props import calib_common as cc
 from props import calib_family as cf
 
@@ -50,17 +53,154 @@ def nontrivial(c, o):
     return False
 
 
+
+# ------------------------------------------------------------------------------------------------ round 4 (generator sweep)
+BIG = [3.5, 1.25, 0.75, 2.0, 10.0, 7.0, 100.0, 1.5]
+
+
+def x_palette(rng, precs, negatives=True, extremes=True):
+    """Losses far from zero + values around the thresholds 0.5*10^-p of every precision the case uses + (sometimes) large
+    negative values together with values that round to zero (the smallest loss decides, not the one nearest zero) +
+    (sometimes) tiny / subnormal / huge values and a negative zero."""
+    pal = [rng.choice(BIG) for _ in range(rng.randint(3, 6))]
+    for p in precs:
+        if p is None:
+            continue
+        thr = [0.0, 0.25, 0.75, 1.0, 1.5] + ([-0.25, -0.75] if negatives else []) + ([0.5] if p == 0 else []) + \
+              ([-0.5] if p == 0 and negatives else [])
+        for _ in range(rng.randint(0, 2)):
+            pal.append(rng.choice(thr) * 10.0 ** (-p))
+    if negatives and rng.below(4) == 0:
+        pal += [-rng.choice(BIG), 0.0]
+    if extremes == 2 or (extremes and rng.below(4) == 0):
+        # tiny / subnormal values round to zero at every precision; |x| * 10^p overflows for the huge ones
+        pal.append(rng.choice([5e-324, 1e-300, 1.7e308] + ([-1e-300, -0.0, -1.7e308, -1.7e308] if negatives else [])))
+    rng.shuffle(pal)
+    return pal
+
+
+def gen_xcases(chk):
+    rng = chk.rng
+    quick = chk.tier == "quick"
+    cases = []
+    for i in range(280 if quick else 1050):
+        kind = i % 7
+        rl = kind == 1
+        c = cc.gen_case(rng, len(cases), max_ops=4, max_samplers=3, bs_max=3, e_max=2,
+                        allow=("calibrate", "calibrate", "checkpoint", "restore") if kind != 5 else
+                        ("calibrate", "calibrate", "set_samplers", "set_scheduler", "restore"), prec_prob=1, nmax=6, rl=rl)
+        c["x"] = 1
+        precs = [c["cfg"]["prec"]]
+        if kind in (0, 1) or rng.below(4) == 0:
+            # the precision / verbosity / folder are reassigned between the calls: None <-> p, p -> p'
+            ops = []
+            for op in c["ops"]:
+                if rng.below(2):
+                    p2 = rng.choice([None, rng.randint(0, 12), precs[-1]])
+                    precs.append(p2)
+                    ops.append(["set_cfg", p2, bool(rng.below(2)), bool(rng.below(2)) and not rl])
+                ops.append(op)
+            c["ops"] = ops + [["calibrate", rng.randint(1, 4)]]
+        c["palette"] = x_palette(rng, precs, negatives=not rl, extremes=2 if kind == 3 else 1)
+        if kind == 1 and rng.below(2):
+            c["rl"]["agent"] = {"alpha": rng.choice([-1, 0.2]), "eps": rng.choice([0.0, 0.5]), "init": 1.0}
+        if kind == 2:
+            k = rng.choice(["model", "loss", "sampler"])
+            c["fault"] = ["sampler", rng.below(len(c["samplers"])), rng.below(3)] if k == "sampler" else [k, rng.below(12)]
+            c["ops"] += [["calibrate", rng.randint(1, 4)]]
+        if kind == 3:
+            c["loss_repr"] = rng.choice(["f32", "np64", "0d", "int"])
+            if c["loss_repr"] == "f32":
+                c["palette"] = [float(np.float32(x if abs(x) < 3e38 else (1e30 if x > 0 else -1e30))) for x in c["palette"]]
+            c["n_repr"] = "np"
+            c["bs_np"] = bool(rng.below(2))
+            c["lineup_repr"] = "tuple"
+            saves = c["cfg"]["saving"] or any(op[0] == "checkpoint" or (op[0] == "set_cfg" and op[3]) for op in c["ops"])
+            c["prec_np"] = not saves          # a numpy integer cannot be written to calibration_params.json (not C14's subject)
+        if kind == 4:
+            p = rng.randint(0, 12)
+            c["cfg"].update(prec=p, saving=True)
+            c["palette"] = [rng.choice(BIG) for _ in range(5)] + [rng.choice([0.0, 0.25, -0.25]) * 10.0 ** (-p)]
+            c["prefill"] = {"samplers": cc.gen_samplers(rng, rng.randint(1, 3), 140, 3), "n": rng.randint(1, 4),
+                            "E": rng.randint(1, 3), "seed": rng.below(2**31), "palette": [0.0, 2.0, 1e-13], "salt": rng.below(100)}
+            c["folder_repr"] = rng.choice(["str", "path", "slash"])
+            c["ops"] = [["calibrate", 6]] + ([["restore"]] if i % 3 else []) + [["calibrate", rng.randint(2, 4)]] + \
+                       ([["set_cfg", None, False, True], ["calibrate", 2], ["set_cfg", p, True, True], ["calibrate", 3]] if i % 4 == 0 else [])
+        if kind == 6:
+            # the precision is reassigned, the state is checkpointed (explicitly, or by a later batch into the folder) and restored:
+            # the restored calibrator works with the precision that was IN FORCE when the checkpoint was written
+            p1 = rng.choice([None, rng.randint(0, 12)])
+            p2 = rng.choice([x for x in [None, rng.randint(0, 12), rng.randint(0, 12)] if x != p1] or [None if p1 is not None else 3])
+            c["cfg"]["prec"] = p1
+            c["fault"] = None
+            c["palette"] = [rng.choice(BIG) for _ in range(4)] + \
+                           [rng.choice([0.0, 0.25, -0.25]) * 10.0 ** (-(p if p is not None else rng.randint(0, 12))) for p in (p1, p2)]
+            rng.shuffle(c["palette"])
+            sv = bool(rng.below(2))
+            c["ops"] = [["calibrate", rng.randint(0, 3)], ["set_cfg", p2, bool(rng.below(2)), sv], ["calibrate", rng.randint(0, 3)]] + \
+                       ([["checkpoint"]] if not sv or rng.below(2) else []) + [["restore"], ["calibrate", rng.randint(2, 5)]] + \
+                       ([["set_cfg", p1, bool(rng.below(2)), sv], ["calibrate", rng.randint(2, 4)], ["restore"], ["calibrate", 3]] if rng.below(2) else [])
+        cases.append(c)
+    return cases
+
+
+def oracle_c14_x(case, obs):
+    """C14 with the precision / verbosity / folder IN FORCE at every call (reassigned attributes; a restore returns to the
+    values saved with the checkpoint); a call interrupted by an injected fault must not have run past the stop point."""
+    fails = []
+    prev_bi = 0
+    for k, (op, v, now, new, ran, wrote) in enumerate(cx.in_force(case, obs)):
+        if op[0] == "calibrate" and v["exn"] in (0, 1, 2, 3):
+            gs = cf.groups_of(v)
+            want = op[1]
+            if now["prec"] is not None:
+                for j in range(1, op[1] + 1):
+                    upto = prev_bi + j
+                    if len(gs) < upto:
+                        break
+                    rows = [i for g in gs[:upto] for i in g[2]]
+                    if rows and cf.rounds_to_zero(min(v["losses"][i] for i in rows), now["prec"]):
+                        want = j
+                        break
+            if (v["exn"] == 0 and ran != want) or ran > want:
+                fails.append(("stop-point", f"op {k}: calibrate({op[1]}) ran {ran} batches, expected {want} (precision in force "
+                                            f"{now['prec']}, verbose {now['verbose']}, outcome {v['exc']})"))
+            if v["exn"] == 0 and len(v["returned"]) != v["nsampled"]:
+                fails.append(("trigger-in-history", f"op {k}: returned {len(v['returned'])} pairs, history has {v['nsampled']}"))
+            if v["exn"] == 0 and now["saving"] and ran > 0:
+                d = v["disk"]
+                if d is None or "error" in d or any(d[key] != v[key] for key in ("nsampled", "batchidx", "params", "losses", "series", "bnums", "methods")):
+                    fails.append(("trigger-in-checkpoint", f"op {k}: checkpoint does not hold the state calibrate returned with"))
+        elif op[0] == "calibrate":
+            fails.append(("stop-point", f"op {k}: calibrate({op[1]}) raised {v['exc']} (precision in force {now['prec']}); nothing in "
+                                        f"the case makes a batch fail"))
+        prev_bi = v["batchidx"]
+    return fails
+
 def run(chk, replay=None):
     chk.proof_gate()
     cases = [json.loads(open(replay).read())["case"]] if replay else gen_cases(chk)
-    obs, bad, stats, keys, nontriv = cf.run_traces(chk, cases, cf.oracle_c14, nontrivial, label="C14")
+    xcases = []
+    if replay and cases[0].get("x"):
+        xcases, cases = cases, []
+    elif not replay:
+        xcases = gen_xcases(chk)
+    obs, bad, stats, keys, nontriv = cf.run_traces(chk, cases, cf.oracle_c14, nontrivial, label="C14", shard=50)
+    xobs, xbad, xstats, xkeys, xnontriv = cx.run_traces_x(chk, xcases, oracle_c14_x, nontrivial, label="C14x")
+    stats.update(xstats)
     cov = {
-        "evaluations": len(cases), "distinct": len(keys), "distinct_nontrivial": len(nontriv),
+        "evaluations": len(cases) + len(xcases), "distinct": len(keys) + len(xkeys), "distinct_nontrivial": len(nontriv) + len(xnontriv),
+        "extended_cases": len(xcases),
         "rule": "calibrate(n) sequences (n 0-6, up to 4 calls, checkpoints/restores in between) with losses scripted through the "
                 "token model: values c*10^-p for c in {0, .25, .75, 1, 1.5, -.25, -.75} (and +-.5 at p=0, exactly representable), "
-                "precisions 0-12 or none, verbose on/off, saving folder on/off; non-trivial = a calibrate call stopped early",
-        "samples": cf.sample_cases(cases, obs),
-        "traces_validated_against_impl": len(cases) - len(bad), "model_impl_disagreements": len(bad),
+                "precisions 0-12 or none, verbose on/off, saving folder on/off; round 4: convergence_precision / verbose / "
+                "saving_folder reassigned between the calls (Model/CalibX.v), RL scheduler (scripted and epsilon-greedy agent), "
+                "injected faults, set_samplers / set_scheduler between calls, losses returned as float32 / float64 scalars / 0-d "
+                "arrays / ints, numpy-integer precision / batch count / batch size, large negative losses next to zeros, tiny / "
+                "subnormal / huge losses and -0.0, a saving folder holding another run; non-trivial = a calibrate call stopped early",
+        "samples": cf.sample_cases(cases, obs) + cf.sample_cases(xcases, xobs, 2),
+        "traces_validated_against_impl": len(cases) - len(bad) + len(xcases) - len(xbad),
+        "model_impl_disagreements": len(bad) + len(xbad),
         "distribution": dict(sorted(stats.items())),
     }
     return chk.finish(cov, assumptions=cf.ASSUME + ["np.round(x, p) == 0 iff |x|*10^p <= 1/2 (half-to-even), checked away from "
